@@ -130,7 +130,7 @@ package lexer
 //@   loop 1 invariant forall(k, p.rawCursor, i, !match(p.tokens[k]))
 //@   loop 1 decreases p.nextCursor - i
 
-//@ func (*PeekingLexer).FastForward [C12 C10 C06 C11 C01]
+//@ func (*PeekingLexer).FastForward [C12 C10 C06 C11 C01 C08]
 //@   frame-tags C09
 //@   no-recursion
 //@   requires plInv(p)
@@ -382,13 +382,13 @@ package lexer
 //@   ensures result == nil ==> lexer.stack[len(lexer.stack)-1].groups == groups
 //@   ensures result == nil ==> forall(k, 0, len(old(lexer.stack)), lexer.stack[k] == old(lexer.stack[k]))
 
-//@ func (*StatefulDefinition).LexString [C04 C07 C15 C03]
+//@ func (*StatefulDefinition).LexString [C04 C07 C15 C03 C06]
 //@   frame-tags C09
 //@   ensures result1 == nil && typeis(result0, *StatefulLexer) && fresh(result0)
 //@   ensures rulesOK(d) ==> slInv(result0.(*StatefulLexer))
 //@   ensures posInv(result0.(*StatefulLexer), s, filename) && result0.(*StatefulLexer).pos == Position{filename, 0, 1, 1}
 //@   ensures len(result0.(*StatefulLexer).stack) == 1 && result0.(*StatefulLexer).stack[0].name == "Root" && result0.(*StatefulLexer).def == d
-//@   ensures fresh(result0.(*StatefulLexer).stack) && result0.(*StatefulLexer).data == s [C09 C04 C15 C03 C07]
+//@   ensures fresh(result0.(*StatefulLexer).stack) && result0.(*StatefulLexer).data == s [C09 C04 C15 C03 C07 C06]
 //@   use emptyFacts() at exit
 
 // The reader entry point lexes exactly the bytes read, under the caller's filename (C15: Lex, LexString
